@@ -107,13 +107,11 @@ pub struct Contents {
 pub fn contents(_stack: &Stack<Span<'_>>) -> Contents {
     let m = stubs::stack_get();
     let mut data = [(0, 0); stubs::CAP];
-    let mut i = 0;
-    while i < stubs::CAP {
-        if i < m.len {
-            data[i] = (m.data[i][2], m.data[i][3]);
+    unroll6!(I, {
+        if I < m.len {
+            data[I] = (m.data[I][2], m.data[I][3]);
         }
-        i += 1;
-    }
+    });
     Contents { len: m.len, data, open_snapshots: m.nsnaps }
 }
 #[cfg(not(kani))]
@@ -131,13 +129,11 @@ pub fn same_contents(a: &Contents, b: &Contents) -> bool {
         return false;
     }
     let mut ok = true;
-    let mut i = 0;
-    while i < stubs::CAP {
-        if i < a.len && a.data[i] != b.data[i] {
+    unroll6!(I, {
+        if I < a.len && a.data[I] != b.data[I] {
             ok = false;
         }
-        i += 1;
-    }
+    });
     ok
 }
 pub fn matches_ref(a: &Contents, r: &RefState) -> bool {
@@ -145,13 +141,11 @@ pub fn matches_ref(a: &Contents, r: &RefState) -> bool {
         return false;
     }
     let mut ok = true;
-    let mut i = 0;
-    while i < stubs::CAP {
-        if i < a.len && a.data[i] != r.st[i] {
+    unroll6!(I, {
+        if I < a.len && a.data[I] != r.st[I] {
             ok = false;
         }
-        i += 1;
-    }
+    });
     ok
 }
 /// A fresh stack holding `d` entries (1 byte each at offsets 0.., clipped to the text).
